@@ -468,7 +468,7 @@ Lemma chain_rest_sound (A B : V) (rest : list SegR) : forall (cur : SegR) (t0 ta
   chain_rest 0 A B cur t0 rest = true -> chain_from A B tau0 (cur :: rest).
 Proof.
   induction rest as [|nxt rest IH]; intros [S C] t0 tau0 Ht HS Et H; cbn [fst snd] in *.
-  - cbn [chain_rest] in H. cbn [snd] in H. apply v2close0_true in H. subst C. apply chain_last; [exact HS | lra].
+  - cbn [chain_rest] in H. cbn [snd] in H. apply v2eqb_true in H. subst C. apply chain_last; [exact HS | lra].
   - cbn [chain_rest] in H. cbn [snd] in H.
     apply andb_true_iff in H; destruct H as [H Hrest].
     apply andb_true_iff in H; destruct H as [H Hnxt]. apply v2eqb_true in Hnxt.
@@ -503,7 +503,7 @@ Qed.
 Lemma chain_check0_sound (l : SegR) (pcs : list SegR) : chain_check 0 l pcs = true -> is_chain l pcs.
 Proof.
   destruct l as [A B]. unfold chain_check, is_chain; cbn [fst snd]. destruct pcs as [|pc rest]; [discriminate|].
-  intros H. apply andb_true_iff in H. destruct H as [H1 H2]. apply v2close0_true in H1.
+  intros H. apply andb_true_iff in H. destruct H as [H1 H2]. apply v2eqb_true in H1.
   apply (chain_rest_sound A B rest pc 0 0); [lra | rewrite H1; symmetry; apply pt_0 | lra | exact H2].
 Qed.
 
